@@ -178,6 +178,18 @@ PlainMsg(x) ==
   IF "fs" \notin DOMAIN x THEN [t |-> "s", tok |-> x.tok]
   ELSE [t |-> "m", fs |-> {<<p.name, IF p.has THEN PlainVal(p.v) ELSE [t |-> "unset"]>> : p \in Range(x.fs)}]
 
+\* a value satisfies the (buf.validate.field).required rules of its message types: every required field
+\* is populated (a singular field is set / non-zero, a list or map is non-empty), at every depth
+RECURSIVE SatisfiesRequired(_, _)
+Populated(p) == p.has /\ (p.v.t \in {"l", "mp"} => Len(p.v.es) > 0)
+SatisfiesRequired(s, x) ==
+  IF "fs" \notin DOMAIN x \/ ~HasMsg(s, x.type) THEN TRUE
+  ELSE LET M == MsgByName(s, x.type) IN
+       \A p \in Range(x.fs) :
+          /\ (FieldOf(M, p.name).rules.required => Populated(p))
+          /\ (p.has /\ p.v.t = "m" => SatisfiesRequired(s, p.v))
+          /\ (p.has /\ p.v.t = "l" => \A i \in DOMAIN p.v.es : p.v.es[i].t = "m" => SatisfiesRequired(s, p.v.es[i]))
+
 \* the losses are allowed, not required: what comes back is the value itself or its normal form
 RoundTripOK(s, x, back) == PlainMsg(back) \in {NormMsg(s, x), PlainMsg(x)}
 
